@@ -193,9 +193,9 @@ func brief(v interface{}) string {
 // World is the family plus the caller-owned inputs of New.
 type World struct {
 	// Huge: the first base frame has a thousand rows or more.
-	Huge    bool
+	Huge bool
 	// Giant: the first base frame has more than 8192 rows.
-	Giant bool
+	Giant   bool
 	Specs   []*gen.FrameSpec
 	Members []*Member
 	inputs  []inputCopy
